@@ -392,7 +392,7 @@ class Emitted:
         self.fn = None         # FnItem
 
 
-GLOBAL_OPTIONAL_RULES = [('optclosure', '')]
+GLOBAL_OPTIONAL_RULES = [('optclosure', ''), ('noprint', '')]
 
 
 def emit_function(root, c, mode, extra_fmt_fns):
